@@ -1,9 +1,21 @@
 //! C20 (partial): `.rten` header container, i64→i32 constant narrowing through the real ONNX
 //! loader, and `f16_to_f32` on all 65536 bit patterns.
 //!
-//! Requests (see lean/RtenVerif/Driver/C20.lean): `hdr`, `tobuf`, `f16`, `sat`.
+//! Plus the end-to-end family (`c20_e2e.rs`): generated ONNX models are converted by the real
+//! `rten-convert` (run through `harness/pyshim/run_convert.py`), both files are loaded and run.
+//!
+//! Requests (see lean/RtenVerif/Driver/C20.lean): `hdr`, `tobuf`, `f16`, `sat`, `cst`, `f64`;
+//! `# e2e ...` lines carry the model bytes (hex) and are judged by the harness oracle only.
 #[path = "../onnx_enc.rs"]
 mod onnx_enc;
+#[path = "../op_cases.rs"]
+mod op_cases;
+#[path = "../opcat.rs"]
+mod opcat;
+#[path = "../c01_templates.rs"]
+mod c01_templates;
+#[path = "../c20_e2e.rs"]
+mod c20_e2e;
 use hcommon::{Out, Rng};
 use onnx_enc::{dt, Graph, Node, Tensor, ValueInfo};
 use rten::{ModelOptions, Value};
@@ -194,5 +206,94 @@ fn main() {
         out.bucket(if raw { "sat_raw_data" } else { "sat_int64_data" });
         out.case(&req, &ans, fail, vals.iter().any(|&x| x > i32::MAX as i64 || x < i32::MIN as i64));
     }
-    out.finish("headers: serialised random/boundary Header values with random bodies, truncated / bit-flipped / random variants; to_buf on random fields; all 65536 f16 patterns; int64 initializers (raw_data and int64_data encodings) with boundary and random values loaded through ModelOptions::load; non-trivial = accepted or full-length header, non-zero f16, out-of-i32-range constants");
+    // (5) end-to-end: ONNX file vs the .rten file produced by the real converter.
+    e2e(&mut out, &mut rng, &args);
+    out.finish("headers: serialised random/boundary Header values with random bodies, truncated / bit-flipped / random variants; to_buf on random fields; all 65536 f16 patterns; int64 initializers (raw_data and int64_data encodings) with boundary and random values loaded through ModelOptions::load; end-to-end: single-operator models of two operator catalogues with inputs turned into constants of every storage dtype/encoding, constants of every dtype (int64 beyond i32, bool bytes, f64 halfway/overflow/subnormal/NaN, f16 all classes, typed and raw, 0-d and empty), Constant-op attributes, legacy attributes, default attributes, If/Loop subgraphs, fusion-pattern and random multi-operator graphs, external data: each converted by the real rten-convert and both files loaded and run with optimizations off and on; non-trivial = accepted or full-length header, non-zero f16, out-of-i32-range constants, converted models whose two files ran");
+}
+
+fn canon_answer(c: &[c20_e2e::Canon]) -> String {
+    match c.first() {
+        Some(c) => format!("{} {}", c.dtype, hcommon::join(c.bits.iter().map(|&b| if c.dtype == "f32" || c.dtype == "u8" { (b as u64).to_string() } else if c.dtype == "i8" { (b as u8 as i8).to_string() } else { (b as i32).to_string() }), ",")),
+        None => "none".into(),
+    }
+}
+
+fn e2e(out: &mut Out, rng: &mut Rng, args: &hcommon::Args) {
+    use c20_e2e::*;
+    let t0 = std::time::Instant::now();
+    let th = args.thorough;
+    let mut tags: Vec<String> = vec![];
+    let mut models: Vec<E2e> = vec![];
+    models.extend(family_catalogue(rng, if th { 12 } else { 3 }, &mut tags));
+    models.extend(family_constants(rng, if th { 1500 } else { 300 }, if th { 40 } else { 10 }));
+    models.extend(family_constant_op(rng, if th { 400 } else { 80 }));
+    models.extend(family_legacy_attrs(rng, if th { 600 } else { 120 }));
+    models.extend(family_defaults(rng, if th { 8 } else { 2 }));
+    models.extend(family_subgraphs(rng, if th { 100 } else { 20 }));
+    models.extend(family_graphs(rng, th, if th { 600 } else { 120 }));
+    models.extend(family_external(rng, if th { 60 } else { 15 }));
+    let dir = std::path::Path::new(&args.out).join("e2e");
+    let _ = std::fs::remove_dir_all(&dir);
+    let conv = convert_all(&dir, &models, 12);
+    let t_conv = t0.elapsed().as_secs_f64();
+    let mut cov = Coverage::default();
+    for (i, (e, c)) in models.iter().zip(&conv).enumerate() {
+        let v = compare(e, c);
+        cov.record(e, c.status == "ok");
+        let fam = e.label.split('/').next().unwrap_or("?").to_string();
+        out.bucket(&format!("e2e:{fam}"));
+        for b in &v.buckets {
+            out.bucket(&format!("e2e:{b}"));
+        }
+        let ran = v.buckets.iter().any(|b| b.ends_with("same_outputs") || b.contains("DIFFERENT"));
+        let mut fail = v.fail.clone();
+        if fail.is_some() {
+            // keep the failing pair for inspection
+            let keep = std::path::Path::new(&args.out).join("e2e_fail");
+            let _ = std::fs::create_dir_all(&keep);
+            let _ = std::fs::copy(&c.onnx_path, keep.join(format!("m{i}.onnx")));
+            let _ = std::fs::copy(&c.rten_path, keep.join(format!("m{i}.rten")));
+        }
+        match &e.cst_req {
+            Some(req) => {
+                // answered by the Lean model: the narrowed constant as the ONNX loader produced it
+                let ans = match &v.onnx_out {
+                    Some(o) => canon_answer(o),
+                    None => {
+                        fail.get_or_insert("the ONNX loader rejected or failed on a well-formed constant".into());
+                        "err".into()
+                    }
+                };
+                if c.status != "ok" {
+                    fail.get_or_insert(format!("rten-convert refused a well-formed constant: {} {}", c.status, c.stderr));
+                }
+                out.case(req, &ans, fail.as_deref(), ran);
+            }
+            None => {
+                let bytes = std::fs::read(&c.onnx_path).unwrap_or_default();
+                let req = format!("# e2e {i} {} opset={} onnx={}", e.label.replace(' ', "_"), e.opset, hex(&bytes));
+                let ans = if c.status == "ok" { v.answer.clone() } else { format!("{} [{}]", v.answer, c.status.chars().take(160).collect::<String>()) };
+                out.case(&req, &ans, fail.as_deref(), ran);
+            }
+        }
+    }
+    for t in &tags {
+        out.bucket(&format!("e2e:input_as:{t}"));
+    }
+    out.note(&format!(
+        "e2e: {} models generated, {} converted by rten-convert, {} refused; converter wall {:.1}s, total {:.1}s",
+        models.len(),
+        cov.models_converted,
+        cov.models_refused,
+        t_conv,
+        t0.elapsed().as_secs_f64()
+    ));
+    out.note(&format!("e2e operators converted ({}): {}", cov.ops_converted.len(), hcommon::join(cov.ops_converted.iter(), " ")));
+    let only_refused: Vec<&String> = cov.ops_refused.iter().filter(|o| !cov.ops_converted.contains(*o)).collect();
+    out.note(&format!("e2e operators only ever refused ({}): {}", only_refused.len(), hcommon::join(only_refused.iter(), " ")));
+    out.note(&format!("e2e attribute kinds converted: {}; distinct operator.attribute names: {}", hcommon::join(cov.attr_kinds.iter(), " "), cov.attr_names.len()));
+    out.note(&format!("e2e constant dtype:encoding converted: {}", hcommon::join(cov.const_dtypes.iter(), " ")));
+    if !std::env::var("VERIF_KEEP_E2E").is_ok() {
+        let _ = std::fs::remove_dir_all(&dir);
+    }
 }
